@@ -289,6 +289,12 @@ fn structured_cases(ctx: &Ctx, scratch: &std::path::Path) -> Vec<Case> {
         }
         add(&format!("recursion/equ-doubling-used-often/{}x{}/{}", uses, rungs, line.split_whitespace().next().unwrap_or("?").trim_start_matches('.')), t);
     }
+    // many parameters on one body line and one long argument: the replaced line must not be built before its
+    // length is looked at
+    for (uses, arg_len) in [(15000usize, 30000usize), (30000, 1000), (2000, 60000), (30000, 60000)] {
+        add(&format!("size/macro-line-{}-parameters-x-{}-characters", uses, arg_len), format!(".macro m\n.db {}\n.endm\nm {}\n", "@0".repeat(uses), "x".repeat(arg_len)));
+        add(&format!("size/macro-line-{}-parameters-x-{}-characters-second-argument", uses, arg_len), format!(".macro m\n.dw {}\n.endm\nm 1, {}\n", "@1+".repeat(uses), "7".repeat(arg_len.min(18))));
+    }
     add("recursion/macro-arg-doubling", ".macro m\n.dq @0\n.endm\n.equ a0 = 1\n.equ a1 = a0+a0\n.equ a2 = a1+a1\n.equ a3 = a2+a2\nm a3+a3\n".into());
     add("recursion/equ-label-same-name", "a: .equ a = a\n.dw a\n".into());
     // a macro that calls itself (or the next one) with an argument that grows at every level: glued,
